@@ -43,6 +43,8 @@ class Runtime:
         self.class_ids = {}
         self.opaque_calls = []
         self.used_models = set()
+        self.global_ids = {}        # id(container) -> where it was created (module-level state)
+        self.global_writes = []
         for name, base in BUILTIN_EXC.items():
             self.builtin_class(name)
         self.object_class = PyClass("object", [], kind="builtin")
@@ -392,6 +394,7 @@ class Runtime:
                     val = hook(interp)
                 else:
                     val = interp.eval(info.assigns[name], Frame(None, mod))
+                    self.mark_global(val, "%s.%s" % (mod.name, name))
             elif name in info.imports:
                 src, attr = info.imports[name]
                 target = self.import_module(src)
@@ -603,6 +606,38 @@ class Runtime:
         return None
 
     # ------------------------------------------------------------------ items
+    def mark_global(self, v, where, depth=0):
+        """containers reachable from a module-level value are module-level state (frame condition: a call
+        must not write them)"""
+        if depth > 6:
+            return
+        if isinstance(v, (PDict, PSet, ASet, list)):
+            if id(v) in self.global_ids:
+                return
+            self.global_ids[id(v)] = (where, v)
+            items = v.pairs if isinstance(v, PDict) else (v.items if isinstance(v, PSet) else (v if isinstance(v, list) else []))
+            for x in items:
+                for y in (x if isinstance(x, (list, tuple)) else [x]):
+                    self.mark_global(y, where, depth + 1)
+        elif isinstance(v, Closure):
+            f = v.frame
+            while f is not None:
+                for x in list(f.locals.values()):
+                    if not isinstance(x, Closure):
+                        self.mark_global(x, where, depth + 1)
+                f = f.parent
+        elif isinstance(v, Obj) and depth < 3:
+            for x in v.fields.values():
+                self.mark_global(x, where, depth + 1)
+        elif isinstance(v, (tuple,)):
+            for x in v:
+                self.mark_global(x, where, depth + 1)
+
+    def note_write(self, container):
+        g = self.global_ids.get(id(container))
+        if g is not None and g[1] is container:
+            self.global_writes.append(g[0])
+
     def dict_items(self, interp, d):
         if isinstance(d, PDict):
             return [(k, v) for k, v in d.pairs]
@@ -618,6 +653,7 @@ class Runtime:
         return None
 
     def setitem(self, interp, c, idx, value):
+        self.note_write(c)
         if isinstance(c, PDict):
             i = self.dict_find(interp, c, idx)
             if i is None:
